@@ -63,3 +63,6 @@ pub proof fn vacuity_canary_must_fail(x: int)
     ensures x == x + 1,   // [CANARY]
 {
 }
+
+/// window actually needed after `n` bytes with dictionary size `dict` fits the memory limit
+pub open spec fn mem_ok(dict: nat, memlimit: nat, n: nat) -> bool { (if n <= dict { n } else { dict }) <= memlimit }
